@@ -929,6 +929,16 @@ def method_call(ev, recv, name, args, kwargs, fr, node):
         if T.is_const(recv) and all(T.is_const(a) for a in args):
             return T.lst([T.const(x) for x in getattr(recv[1], name)(*[a[1] for a in args])])
         return T.raw_op('SPLIT', recv, *args)
+    if T.is_op(recv, 'HEX') and name in ('strip', 'lstrip', 'rstrip', 'lower') and len(args) <= 1:
+        # canonical hex text: lower-case digits only - nothing to strip unless hex digits themselves are stripped
+        if name == 'lower' and not args:
+            return recv
+        if name != 'lower' and (not args or (T.is_const(args[0]) and isinstance(args[0][1], str)
+                                            and not (set(args[0][1]) & set('0123456789abcdef')))):
+            return recv
+    if T.is_op(recv, 'HEX') and name == 'startswith' and len(args) == 1 and T.is_const(args[0]) and isinstance(args[0][1], str) \
+            and set(args[0][1]) - set('0123456789abcdef'):
+        return T.FALSE
     if name in ('strip', 'lstrip', 'rstrip', 'upper', 'lower', 'zfill', 'startswith', 'endswith', 'find', 'rfind',
                 'index', 'count', 'replace', 'isdigit', 'ljust', 'rjust', 'title', 'capitalize'):
         if T.is_const(recv) and all(T.is_const(a) for a in args) and isinstance(recv[1], (str, bytes)):
